@@ -29,7 +29,7 @@ EXPLANATION = (
     " Third round: the reader's symbol set is evaluated as a constant expression (starred generators over range, f-strings)."
     ' Fourth round: cuts at the annotation underscore of Japanese lexical categories are anchored at the first underscore.'
     ' Fifth round: the Japanese node template on every path; label recovery total over any three categories.'
-)
+    ' Sixth and seventh round: delimiters and atoms of Category.parse, the PTB reader chosen by how the name ends, every line parsed by itself (R20.4), the tree factories store what they are given (R20.1).')
 TRUSTED = ['CPython ast', 'sa/pysym.py path walker', 'independent category grammar sa/datafiles.py', 'rule table DESIGN.md C20']
 
 RD = 'depccg/tools/reader.py'
